@@ -545,39 +545,8 @@ example :
 theorem C07_ext_roundtrip (items : List ExtItem)
     (hwf : ∀ e ∈ items, e.flags < 256 ∧ e.type < 65536 ∧ e.value.length < 65536) (fuel : Nat)
     (hfuel : items.length ≤ fuel) :
-    decExtItems fuel (encExtItems items) = some items := by
-  induction items generalizing fuel with
-  | nil => cases fuel <;> simp [decExtItems, encExtItems]
-  | cons e es ih =>
-    obtain ⟨h1, h2, h3⟩ := hwf e (by simp)
-    cases fuel with
-    | zero => simp at hfuel
-    | succ fuel =>
-      have hu8 : u8 e.flags = [UInt8.ofNat e.flags] := u8_eq _ h1
-      have hu16 : ∀ n, n < 65536 → u16 n = [UInt8.ofNat (n / 256), UInt8.ofNat (n % 256)] := by
-        intro n hn
-        have h1 : n / 256 % 256 = n / 256 := Nat.mod_eq_of_lt (by omega)
-        simp [u16, beBytes, h1]
-      simp only [encExtItems, encExtItem, hu8, hu16 _ h2, hu16 _ h3, List.cons_append,
-        List.nil_append, decExtItems]
-      have hne : ¬ (UInt8.ofNat e.flags :: UInt8.ofNat (e.type / 256) :: UInt8.ofNat (e.type % 256)
-          :: UInt8.ofNat (e.value.length / 256) :: UInt8.ofNat (e.value.length % 256)
-          :: (e.value ++ encExtItems es) = []) := by simp
-      simp only [hne, if_false]
-      have a1 := ofNat_toNat (e.type / 256) (by omega)
-      have a2 := ofNat_toNat (e.type % 256) (by omega)
-      have a3 := ofNat_toNat (e.value.length / 256) (by omega)
-      have a4 := ofNat_toNat (e.value.length % 256) (by omega)
-      have a0 := ofNat_toNat e.flags h1
-      simp only [a0, a1, a2, a3, a4]
-      have hl : e.value.length / 256 * 256 + e.value.length % 256 = e.value.length :=
-        Nat.div_add_mod' _ 256
-      have ht : e.type / 256 * 256 + e.type % 256 = e.type := Nat.div_add_mod' _ 256
-      simp only [hl, ht]
-      have : ¬ ((e.value ++ encExtItems es).length < e.value.length) := by
-        rw [List.length_append]; omega
-      simp only [this, if_false, List.drop_left, List.take_left]
-      rw [ih (fun e' he' => hwf e' (by simp [he'])) fuel (by simpa using hfuel)]
+    decExtItems fuel (encExtItems items) = some items :=
+  decExtItems_enc items hwf fuel hfuel
 
 end Tcpcl
 end DtnVerif
